@@ -145,8 +145,23 @@ func (P *Prog) buildQuery(o *Obligation) (asserts []*Term, stats string) {
 		var added []*Term
 		order := collect(asserts)
 		existing := make(map[int]bool, len(order))
+		// hidden rows: array-sorted atoms that occur as the stored value of a store or as a
+		// branch of an ite, so that reads of them need not occur syntactically in the query.
+		// They are marked with negative keys in the same map (-id).
 		for _, t := range order {
 			existing[t.id] = true
+			switch t.Op {
+			case "store":
+				if v := t.Args[2]; v.Sort.Kind == SArray && len(v.Args) == 0 {
+					existing[-v.id] = true
+				}
+			case "ite":
+				for _, v := range t.Args[1:] {
+					if v.Sort.Kind == SArray && len(v.Args) == 0 {
+						existing[-v.id] = true
+					}
+				}
+			}
 		}
 		candBySort := map[*Sort][]*Term{}
 		if round < 7 {
@@ -163,6 +178,11 @@ func (P *Prog) buildQuery(o *Obligation) (asserts []*Term, stats string) {
 					candBySort[lf.Sort] = cands
 				}
 				cands = append([]*Term{}, cands...)
+				// relative index 0 (an absolute index that is exactly a slice offset has no
+				// syntactic relative part)
+				if lf.Sort == IntSort {
+					cands = append(cands, BVi(0, 64))
+				}
 				// the goal's own constants and explicit hints are always tried
 				for _, s := range o.Skolems {
 					if s.Sort == lf.Sort {
@@ -329,6 +349,10 @@ func triggered(body *Term, indep map[int]bool, existing map[int]bool) bool {
 		}
 		seen[t.id] = true
 		if (t.Op == "select" || t.Op == "app") && existing[t.id] {
+			return true
+		}
+		// a read of a row that occurs in the query only inside stores/ites
+		if t.Op == "select" && existing[-t.Args[0].id] {
 			return true
 		}
 		stack = append(stack, t.Args...)
